@@ -49,7 +49,14 @@ def run(ctx):
         if be == "f64":
             pool = kc.F64_SPECIAL + kc.structured_pool(be)[:6] + [kc.random_amount(be, rng, moderate=False) for _ in range(10)]
         else:
-            pool = [kc.dec_tok(c, n) for c, n in [(1, 0), (25, 1), (-3, 0), (1, 6), (123456, 3), (-999999, 0), (1, 15), (10 ** 17, 0), (10 ** 9, 0), (5, 9), (0, 0), (7, 3)]]
+            pool = [kc.dec_tok(c, n) for c, n in [(1, 0), (25, 1), (-3, 0), (1, 6), (123456, 3), (-999999, 0), (1, 15), (10 ** 17, 0), (10 ** 9, 0), (5, 9), (0, 0), (7, 3),
+                                                  (123456789012123456789, 9), (750000000000075, 2), (25, 9), (99999999999999999, 0), (31415926535897932, 4), (-271828182845904523, 12)]]
+            # many-digit values of every magnitude inside the envelope
+            for _ in range(40):
+                k = rng.randint(-12, 15)
+                nfd = rng.randint(max(0, -k), min(18, max(0, -k) + rng.randint(0, 12)))
+                c = rng.randint(10 ** max(0, k + nfd - 1), 10 ** max(1, k + nfd)) if k + nfd >= 0 else rng.randint(1, 9)
+                pool.append(kc.dec_tok(c if rng.random() < 0.8 else -c, nfd))
         ops, meta = [], []
         if ctx.replay:
             for b, line in kc.replay_ops(ctx):
@@ -110,8 +117,12 @@ def run(ctx):
                 if tq not in tnames or pq not in tnames:
                     continue
                 T, P = tnames[tq], tnames[pq]
-                for _ in range(4 if quick else 30):
+                big = [x for x in pool if be == "dec" and kc.value(be, x) is not None and abs(kc.value(be, x)) >= 10 ** 8 and int(x.split("/")[1]) >= 6] or pool
+                for i in range(16 if quick else 60):
                     t_, p_, a = rng.choice(pool), rng.choice(pool), rng.choice(pool)
+                    if i % 2 == 0:
+                        t_, a = rng.choice(big), rng.choice(big)
+                        p_ = rng.choice([x for x in pool if kc.value(be, x) not in (None, 0)][:6])
                     tu, pu, qu = rng.randrange(T.n), rng.randrange(P.n), rng.randrange(P.n)
                     vt, vp, va = (kc.value(be, t_), kc.value(be, p_), kc.value(be, a)) if be == "dec" else (None, None, None)
                     if be == "dec" and vp == 0:
